@@ -59,8 +59,8 @@ func nodeConf(dir string) *viper.Viper {
 	conf.Set("non_validator_node_auth", false)
 	conf.Set("fast_sync", false)
 	conf.Set("pex_reactor", false)
-	conf.Set("log_path", filepath.Join(dir, "logs"))
-	conf.Set("audit_log_path", filepath.Join(dir, "logs", "audit.log"))
+	conf.Set("log_path", filepath.Join(dir, "node.log"))
+	conf.Set("audit_log_path", filepath.Join(dir, "audit.log"))
 	conf.Set("environment", "production")
 	conf.Set("timeout_propose", 400)
 	conf.Set("timeout_propose_delta", 50)
@@ -78,7 +78,13 @@ func runNodeMode(args []string) error {
 	fs := flag.NewFlagSet("node", flag.ExitOnError)
 	dir := fs.String("dir", "", "runtime directory")
 	scriptFile := fs.String("script", "", "JSON script")
+	genesisFile := fs.String("genesis", "", "genesis file to install instead of the generated one")
+	fastSync := fs.Bool("fastsync", false, "start in fast-sync mode")
+	peerTimeout := fs.Int("peer-timeout", 0, "block pool peer timeout in seconds (0: leave the default)")
 	fs.Parse(args)
+	if *peerTimeout > 0 {
+		blockchain.VerifSetPeerTimeout(*peerTimeout)
+	}
 	var sc nodeScript
 	if *scriptFile != "" {
 		if err := readJSON(*scriptFile, &sc); err != nil {
@@ -93,7 +99,7 @@ func runNodeMode(args []string) error {
 		bs, _ := json.Marshal(rep)
 		fmt.Println("NODE-REPORT " + string(bs))
 	}
-	os.MkdirAll(filepath.Join(*dir, "logs"), 0700)
+	os.MkdirAll(*dir, 0700)
 	conf := nodeConf(*dir)
 	if _, err := os.Stat(filepath.Join(*dir, "genesis.json")); err != nil {
 		crypto.NodeInit(crypto.CryptoType)
@@ -103,7 +109,19 @@ func runNodeMode(args []string) error {
 			return nil
 		}
 		conf = nodeConf(*dir)
+		if *genesisFile != "" {
+			bs, err := ioutil.ReadFile(*genesisFile)
+			if err == nil {
+				err = ioutil.WriteFile(filepath.Join(*dir, "genesis.json"), bs, 0644)
+			}
+			if err != nil {
+				rep.Error = "genesis: " + err.Error()
+				emit()
+				return nil
+			}
+		}
 	}
+	conf.Set("fast_sync", *fastSync)
 	config.SetDefaults(*dir, conf)
 	node, err := core.NewNode(conf, *dir, "evm")
 	if err != nil {
@@ -115,6 +133,7 @@ func runNodeMode(args []string) error {
 		sh, _ := node.Angine.GetValidators()
 		info := node.Application.Info()
 		fmt.Printf("NODE-RECOVERED store=%d state=%d app=%d\n", node.Angine.Height(), sh, info.LastBlockHeight)
+		fmt.Printf("NODE-LISTEN 127.0.0.1:%d\n", node.Angine.P2PPort())
 	}
 	if err := node.Start(); err != nil {
 		rep.Error = "start: " + err.Error()
